@@ -577,6 +577,12 @@ func check(vdir, prop, tier string, seed int64, only int) int {
 	}
 	exit := 0
 	os.MkdirAll(filepath.Join(vdir, "replays"), 0o755)
+	if only < 0 {
+		old, _ := filepath.Glob(filepath.Join(vdir, "replays", prop+"-*.json"))
+		for _, f := range old {
+			os.Remove(f)
+		}
+	}
 	for _, nv := range fresh {
 		name := fmt.Sprintf("%s-%d-%d-%s.json", prop, seed, nv.c.Case, sanitize(nv.v.Clause))
 		path := filepath.Join(vdir, "replays", name)
